@@ -182,7 +182,15 @@ func genTopology(r *rng.R, variant int) ([]gnode, []infoEnt) {
 		case 0:
 			n.slots = []string{strconv.Itoa(lo) + "-" + strconv.Itoa((lo+hi)/2), strconv.Itoa((lo+hi)/2+1) + "-" + strconv.Itoa(hi)}
 		case 1:
-			n.slots = []string{strconv.Itoa(lo) + "-" + strconv.Itoa(hi), "[" + strconv.Itoa(lo) + "->-abc]"}
+			// a slot in migration: the migrating node lists [slot->-dst], the importing node [slot-<-src]
+			switch r.Intn(3) {
+			case 0:
+				n.slots = []string{strconv.Itoa(lo) + "-" + strconv.Itoa(hi), "[" + strconv.Itoa(lo) + "->-abc]"}
+			case 1:
+				n.slots = []string{strconv.Itoa(lo) + "-" + strconv.Itoa(hi), "[" + strconv.Itoa((lo+hi)/2) + "-<-abc]"}
+			default:
+				n.slots = []string{"[" + strconv.Itoa(hi) + "-<-abc]", strconv.Itoa(lo) + "-" + strconv.Itoa(hi), "[" + strconv.Itoa(lo) + "->-def]"}
+			}
 		case 2:
 			n.slots = []string{strconv.Itoa(lo), strconv.Itoa(lo+1) + "-" + strconv.Itoa(hi)}
 		default:
